@@ -93,186 +93,7 @@ def check(P, R):
     from . import c04
     c04.check_reader_premise(P, R, 'C07.c', 'every submitted field arrives: a reader that loses count on a short read truncates the body, so trailing parts disappear')
 
-    # ---- a
-    from .c19 import Lin
-    rd_ = P.func(f'{MP}:BytesIOProxy.read')
-    g, rd = rd_.cfg, rd_.rd
-
-    def _lin(e):
-        if isinstance(e, ast.Constant) and type(e.value) is int:
-            return Lin(e.value)
-        if isinstance(e, ast.Name):
-            return Lin.sym(e.id)
-        if isinstance(e, ast.Attribute) and dotted(e):
-            return Lin.sym(dotted(e))
-        if isinstance(e, ast.BinOp) and isinstance(e.op, (ast.Add, ast.Sub)):
-            l_, r_ = _lin(e.left), _lin(e.right)
-            if l_ is None or r_ is None:
-                return None
-            return l_ + r_ if isinstance(e.op, ast.Add) else l_ - r_
-        if isinstance(e, ast.UnaryOp) and isinstance(e.op, ast.USub):
-            v_ = _lin(e.operand)
-            return None if v_ is None else Lin(0) - v_
-        if isinstance(e, ast.Call) and dotted(e.func) in ('min', 'max') and len(e.args) == 2 and not e.keywords:
-            parts = [_lin(x) for x in e.args]
-            if None in parts:
-                return None
-            return Lin.sym(f'{dotted(e.func)}({", ".join(sorted(repr(x) for x in parts))})')
-        return None
-    # the window position is kept absolute (self._pos starts at `start`) or relative to the start of the part (starts at 0); A is the absolute position
-    init = P.func(f'{MP}:BytesIOProxy.__init__')
-    inits = [st for st in walk_shallow(init.node) if isinstance(st, ast.Assign) and any(dotted(t) == 'self._pos' for t in st.targets)]
-    R.require(len(inits) == 1, 'BytesIOProxy.__init__: expected one store of self._pos')
-    iv = T.expand(init, inits[0].value, init.cfg.node_of_stmt(inits[0])[0])
-    if isinstance(iv, ast.Name) and iv.id == init.params[2]:
-        rep = 'abs'
-        A = Lin.sym('self._pos')
-    elif is_const(iv, 0) and type(iv.value) is int:
-        rep = 'rel'
-        A = Lin.sym('self._st') + Lin.sym('self._pos')
-    else:
-        R.undecided('C07.a', init, inits[0], 'BytesIOProxy: representation of the window position',
-                    f'self._pos starts as `{short(iv)}`: neither the start of the part nor 0')
-        return
-    st_ok = [st for st in walk_shallow(init.node) if isinstance(st, ast.Assign) and any(dotted(t) == 'self._st' for t in st.targets)
-             and isinstance(st.value, ast.Name) and st.value.id == init.params[2]]
-    R.ob('C07.a', init, inits[0], bool(st_ok), text=f'window position kept {"absolute" if rep == "abs" else "relative to the start of the part"}; it starts at the start of the part',
-         detail='' if st_ok else 'self._st is not the start of the part', nontrivial=False)
-
-    def lin_at(fn, e, at):
-        return _lin(T.expand(fn, e, at))
-    src_reads = T.calls_to(rd_, 'self._src.read')
-    R.require(src_reads, 'BytesIOProxy.read: no read of the source')
-    want_rem = Lin.sym('self._end') - A
-    rem_defs = [d for n in g.nodes for d in rd.gen.get(n, []) if d.kind == 'assign' and d.value is not None and lin_at(rd_, d.value, n) == want_rem]
-    R.require(rem_defs, 'BytesIOProxy.read: remainder `self._end - <position>` not computed')
-    rem = rem_defs[0].name
-    advs_all = [n for n in g.nodes if n.kind == 'stmt' and isinstance(n.ast, (ast.AugAssign, ast.Assign)) and
-                any(dotted(t) == 'self._pos' for t in ([n.ast.target] if isinstance(n.ast, ast.AugAssign) else n.ast.targets))]
-    # the remainder is measured before the position moves
-    R.ob('C07.a', rd_, rem_defs[0].stmt, not any(g.can_reach(a_, rem_defs[0].node) for a_ in advs_all), text=f'{rem} = end of the part - position, before the position moves',
-         detail='the remainder is computed after the position was advanced', nontrivial=False)
-    for c in src_reads:
-        cn = g.node_of_stmt(c)[0]
-        a = c.args[0] if c.args else None
-        ok, det = False, 'the source is read without a size'
-        if isinstance(a, ast.Name):
-            defs = rd.at(cn, a.id)
-            ok = bool(defs)
-            for d in defs:
-                v = d.value
-                good = (isinstance(v, ast.Name) and v.id == rem) or (
-                    isinstance(v, ast.Call) and dotted(v.func) == 'min' and rem in {src(x) for x in v.args})
-                if not good:
-                    ok = False
-                    det = f'the size read from the source may be `{short(v) if v is not None else d.kind}`, not bounded by the remainder of the part'
-            if ok:
-                det = ''
-        R.ob('C07.a', rd_, c, ok, detail=det, why='a window that reads past its end returns bytes of the next part (delimiter, headers, other fields)')
-        # seek to own position immediately before
-        seek_calls = [x for x in walk_shallow(rd_.node) if isinstance(x, ast.Call) and dotted(x.func) == 'self._src.seek' and x.args
-                      and lin_at(rd_, x.args[0], g.node_of_stmt(x)[0]) == A]
-        seeks = [g.node_of_stmt(x)[0] for x in seek_calls]
-        ok = bool(seeks) and g.must_pass(g.entry, cn, seeks)
-        R.ob('C07.a', rd_, c, ok, text='self._src.seek(<own position>) before the read', detail='' if ok else
-             'the shared source is read at whatever position another window left it', key_extra='seek')
-        # position advanced by the same size; the seek uses the position before the advance
-        advs = [n for n in g.nodes if n.kind == 'stmt' and isinstance(n.ast, ast.AugAssign) and dotted(n.ast.target) == 'self._pos'
-                and isinstance(n.ast.op, ast.Add) and isinstance(a, ast.Name) and src(n.ast.value) == a.id]
-        # (the position the seek uses may have been computed into a local first: that, too, before the advance)
-        pos_reads = list(seeks)
-        for x in seek_calls:
-            for (_e, dn) in rd.closure(x.args[0], g.node_of_stmt(x)[0]):
-                if dn is not None and dn in g.nodes:
-                    pos_reads.append(dn)
-        ok = len(advs) == 1 and len(advs_all) == 1 and seeks and g.must_pass(g.entry, advs[0], seeks) and not any(g.can_reach(advs[0], s) for s in pos_reads)
-        R.ob('C07.a', rd_, advs[0].ast if advs else c, ok, text='self._pos += <size read> after the seek', detail='' if ok else
-             'the window position is not advanced by exactly the size read (or is advanced before the seek)', key_extra='advance')
-    # non-positive remainder -> b''
-    zt = [n for n in g.nodes if n.kind == 'test' and compare_parts(n.ast) and src(compare_parts(n.ast)[0]) == rem
-          and compare_parts(n.ast)[1] in (ast.LtE, ast.Lt) and isinstance(compare_parts(n.ast)[2], ast.Constant)]
-    ok = False
-    for n in zt:
-        cpx = compare_parts(n.ast)
-        if (cpx[1] is ast.LtE and cpx[2].value == 0) or (cpx[1] is ast.Lt and cpx[2].value == 1):
-            for s in T.succ_by_label(n, 'true'):
-                ok = ok or (s.kind == 'stmt' and isinstance(s.ast, ast.Return) and is_const(s.ast.value, b''))
-            ok = ok and all(g.edge_dominates(n, 'false', g.node_of_stmt(c)[0]) for c in src_reads)
-    R.ob('C07.a', rd_, zt[0].ast if zt else rd_.node, ok, text=f'{rem} <= 0 -> return b"" before any read', detail='' if ok else
-         'an exhausted window can still read from the source')
-    sk = P.func(f'{MP}:BytesIOProxy.seek')
-    sg, srd = sk.cfg, sk.rd
-    pos_stores = [n for n in sg.nodes if n.kind == 'stmt' and isinstance(n.ast, ast.Assign) and any(dotted(t) == 'self._pos' for t in n.ast.targets)]
-
-    def nonneg(e, at):
-        # e >= 0 whenever control is at `at`
-        if isinstance(e, ast.Constant) and isinstance(e.value, int):
-            return e.value >= 0
-        if isinstance(e, ast.Call) and dotted(e.func) == 'max' and any(isinstance(a_, ast.Constant) and isinstance(a_.value, int) and a_.value >= 0 for a_ in e.args):
-            return True
-        if isinstance(e, ast.Name):
-            tests = []
-            for t in sg.nodes:
-                cp_ = compare_parts(t.ast) if t.kind == 'test' and t.ast is not None else None
-                if cp_ and isinstance(cp_[0], ast.Name) and cp_[0].id == e.id and cp_[1] is ast.Lt and is_const(cp_[2], 0):
-                    fix = [m for m in T.succ_by_label(t, 'true') if m.kind == 'stmt' and isinstance(m.ast, ast.Assign) and any(
-                        isinstance(x, ast.Name) and x.id == e.id for x in m.ast.targets) and nonneg(m.ast.value, m)]
-                    if fix:
-                        tests.append(t)
-            defs = srd.at(at, e.id)
-            return bool(defs) and all((d.value is not None and d.kind == 'assign' and not isinstance(d.value, ast.Name) and nonneg(d.value, d.node))
-                                      or (tests and sg.must_pass(d.node, at, tests)) for d in defs)
-        return False
-
-    def clamped(v, at):
-        # v in [self._st, self._end]
-        if isinstance(v, ast.Name):
-            defs = srd.at(at, v.id)
-            return bool(defs) and all(d.value is not None and clamped(d.value, d.node) for d in defs)
-        if isinstance(v, ast.Call) and dotted(v.func) == 'min' and len(v.args) == 2:
-            a_, b_ = v.args
-            if src(b_) == 'self._end':
-                a_, b_ = b_, a_
-            if src(a_) == 'self._end':
-                # lower bound of the other argument
-                if isinstance(b_, ast.BinOp) and isinstance(b_.op, ast.Add):
-                    l_, r_ = b_.left, b_.right
-                    if src(r_) == 'self._st':
-                        l_, r_ = r_, l_
-                    return src(l_) == 'self._st' and nonneg(r_, at)
-                if isinstance(b_, ast.Call) and dotted(b_.func) == 'max' and any(src(x) == 'self._st' for x in b_.args):
-                    return True
-            return False
-        if isinstance(v, ast.Call) and dotted(v.func) == 'max' and len(v.args) == 2 and any(src(x) == 'self._st' for x in v.args):
-            o_ = [x for x in v.args if src(x) != 'self._st'][0]
-            return isinstance(o_, ast.Call) and dotted(o_.func) == 'min' and any(src(x) == 'self._end' for x in o_.args)
-        return False
-    def clamped_rel(v, at):
-        # v in [0, self._end - self._st]: an absolute position of the window minus the start of the part, or min(<non-negative>, length of the part)
-        if isinstance(v, ast.Name):
-            defs = srd.at(at, v.id)
-            return bool(defs) and all(d.value is not None and clamped_rel(d.value, d.node) for d in defs)
-        if isinstance(v, ast.BinOp) and isinstance(v.op, ast.Sub) and src(v.right) == 'self._st':
-            return clamped(v.left, at)
-        if isinstance(v, ast.Call) and dotted(v.func) == 'min' and len(v.args) == 2:
-            for a_, b_ in (v.args, v.args[::-1]):
-                if _lin(T.expand(sk, b_, at, keep=tuple(sk.params))) == Lin.sym('self._end') - Lin.sym('self._st') and nonneg(a_, at):
-                    return True
-        return False
-    R.require(pos_stores, 'BytesIOProxy.seek: no store of self._pos')
-    for n in pos_stores:
-        ok = clamped(n.ast.value, n) if rep == 'abs' else clamped_rel(n.ast.value, n)
-        R.ob('C07.a', sk, n.ast, ok, text=f'`{short(n.ast)}`: the new position lies in [start of the part, end of the part]', detail='' if ok else
-             f'`{short(n.ast)}` can move the window position outside [self._st, self._end] (e.g. a seek before the start of the upload is clamped to the start of the whole '
-             f'body, or not at all): read() then returns the preceding delimiter, headers and other parts\' bytes',
-             why='no byte of one part appears in another', key_extra='seek-clamp')
-    # the window is built from the data section of the same field
-    fr = P.func(f'{MP}:FieldStorage.read')
-    wins = [c for c in walk_shallow(fr.node) if isinstance(c, ast.Call) and dotted(c.func) == 'BytesIOProxy']
-    ok = bool(wins) and len(wins[0].args) == 2 and isinstance(wins[0].args[1], ast.Starred) and src(wins[0].args[1].value) == fr.params[3] \
-        and src(wins[0].args[0]) == fr.params[1]
-    R.ob('C07.a', fr, wins[0] if wins else fr.node, ok, text='file = BytesIOProxy(src, *data_section)', detail='' if ok else
-         'the upload window is not the data section of its own part')
+    check_upload_window(P, R, 'C07.a')
 
     # ---- b: tokenizer
     fs = P.cls(f'{MP}:FieldStorage')
@@ -505,6 +326,7 @@ def check(P, R):
     R.ob('C07.c', ii, ys[0].ast if ys else ii.node, ok, text='one field yielded per pair', detail='' if ok else 'not exactly one field per header/data pair', nontrivial=False)
 
     # ---- d
+    fr = P.func(f'{MP}:FieldStorage.read')
     g, rd = fr.cfg, fr.rd
     reads = [c for c in walk_shallow(fr.node) if isinstance(c, ast.Call) and call_attr(c) == 'read' and dotted(c.func.value) == fr.params[1]]
     R.require(len(reads) == 2, 'FieldStorage.read: two section reads expected')
@@ -536,6 +358,272 @@ def check(P, R):
     check_refuted_window(P, R)
     c06.check_extra_state(P, sub, 'C07.e', 'C07.e')
     c06.check_sentinels(P, sub, 'C07.e')
+    # a body larger than the read buffer is scanned in several chunks: the chunk-boundary clauses of C06 are premises here too
+    c06.check_method_identity(P, sub, 'C07.e')
+    c06.check_eater_reset(P, sub, 'C07.e')
+    c06.check_bytes_vs_int(P, sub, 'C07.e')
+    c06.check_short_window_decisions(P, sub, 'C07.e')
+    check_boundary_refusals(P, R)
+
+
+def check_upload_window(P, R, rid='C07.a'):
+    """the file object of an upload is a window of the shared body buffer: it reads its own part only, at its own position, whatever other windows did"""
+    # ---- a
+    from .c19 import Lin
+    rd_ = P.func(f'{MP}:BytesIOProxy.read')
+    g, rd = rd_.cfg, rd_.rd
+
+    def _lin(e):
+        if isinstance(e, ast.Constant) and type(e.value) is int:
+            return Lin(e.value)
+        if isinstance(e, ast.Name):
+            return Lin.sym(e.id)
+        if isinstance(e, ast.Attribute) and dotted(e):
+            return Lin.sym(dotted(e))
+        if isinstance(e, ast.BinOp) and isinstance(e.op, (ast.Add, ast.Sub)):
+            l_, r_ = _lin(e.left), _lin(e.right)
+            if l_ is None or r_ is None:
+                return None
+            return l_ + r_ if isinstance(e.op, ast.Add) else l_ - r_
+        if isinstance(e, ast.UnaryOp) and isinstance(e.op, ast.USub):
+            v_ = _lin(e.operand)
+            return None if v_ is None else Lin(0) - v_
+        if isinstance(e, ast.Call) and dotted(e.func) in ('min', 'max') and len(e.args) == 2 and not e.keywords:
+            parts = [_lin(x) for x in e.args]
+            if None in parts:
+                return None
+            return Lin.sym(f'{dotted(e.func)}({", ".join(sorted(repr(x) for x in parts))})')
+        return None
+    # the window position is kept absolute (self._pos starts at `start`) or relative to the start of the part (starts at 0); A is the absolute position
+    init = P.func(f'{MP}:BytesIOProxy.__init__')
+    inits = [st for st in walk_shallow(init.node) if isinstance(st, ast.Assign) and any(dotted(t) == 'self._pos' for t in st.targets)]
+    R.require(len(inits) == 1, 'BytesIOProxy.__init__: expected one store of self._pos')
+    iv = T.expand(init, inits[0].value, init.cfg.node_of_stmt(inits[0])[0])
+    if isinstance(iv, ast.Name) and iv.id == init.params[2]:
+        rep = 'abs'
+        A = Lin.sym('self._pos')
+    elif is_const(iv, 0) and type(iv.value) is int:
+        rep = 'rel'
+        A = Lin.sym('self._st') + Lin.sym('self._pos')
+    else:
+        R.undecided(rid, init, inits[0], 'BytesIOProxy: representation of the window position',
+                    f'self._pos starts as `{short(iv)}`: neither the start of the part nor 0')
+        return
+    st_ok = [st for st in walk_shallow(init.node) if isinstance(st, ast.Assign) and any(dotted(t) == 'self._st' for t in st.targets)
+             and isinstance(st.value, ast.Name) and st.value.id == init.params[2]]
+    R.ob(rid, init, inits[0], bool(st_ok), text=f'window position kept {"absolute" if rep == "abs" else "relative to the start of the part"}; it starts at the start of the part',
+         detail='' if st_ok else 'self._st is not the start of the part', nontrivial=False)
+
+    def lin_at(fn, e, at):
+        return _lin(T.expand(fn, e, at))
+    src_reads = T.calls_to(rd_, 'self._src.read')
+    R.require(src_reads, 'BytesIOProxy.read: no read of the source')
+    want_rem = Lin.sym('self._end') - A
+    rem_defs = [d for n in g.nodes for d in rd.gen.get(n, []) if d.kind == 'assign' and d.value is not None and lin_at(rd_, d.value, n) == want_rem]
+    R.require(rem_defs, 'BytesIOProxy.read: remainder `self._end - <position>` not computed')
+    rem = rem_defs[0].name
+    advs_all = [n for n in g.nodes if n.kind == 'stmt' and isinstance(n.ast, (ast.AugAssign, ast.Assign)) and
+                any(dotted(t) == 'self._pos' for t in ([n.ast.target] if isinstance(n.ast, ast.AugAssign) else n.ast.targets))]
+    # the remainder is measured before the position moves
+    R.ob(rid, rd_, rem_defs[0].stmt, not any(g.can_reach(a_, rem_defs[0].node) for a_ in advs_all), text=f'{rem} = end of the part - position, before the position moves',
+         detail='the remainder is computed after the position was advanced', nontrivial=False)
+    for c in src_reads:
+        cn = g.node_of_stmt(c)[0]
+        a = c.args[0] if c.args else None
+        ok, det = False, 'the source is read without a size'
+        if isinstance(a, ast.Name):
+            defs = rd.at(cn, a.id)
+            ok = bool(defs)
+            for d in defs:
+                v = d.value
+                good = (isinstance(v, ast.Name) and v.id == rem) or (
+                    isinstance(v, ast.Call) and dotted(v.func) == 'min' and rem in {src(x) for x in v.args})
+                if not good:
+                    ok = False
+                    det = f'the size read from the source may be `{short(v) if v is not None else d.kind}`, not bounded by the remainder of the part'
+                elif isinstance(v, ast.Call):
+                    # min(requested, remainder) is a bound only for a positive request: min(-1, remainder) is -1, and read(-1) reads to the end of the shared buffer
+                    for o_ in [x for x in v.args if src(x) != rem]:
+                        pos_ = isinstance(o_, ast.Constant) and isinstance(o_.value, int) and o_.value > 0
+                        if isinstance(o_, ast.Name):
+                            for (e_, holds_, _t) in T.guard_atoms(rd_, d.node):
+                                cp_ = compare_parts(e_)
+                                if cp_ and isinstance(cp_[0], ast.Name) and cp_[0].id == o_.id and isinstance(cp_[2], ast.Constant) and type(cp_[2].value) is int and holds_ \
+                                        and ((cp_[1] is ast.Gt and cp_[2].value >= 0) or (cp_[1] is ast.GtE and cp_[2].value >= 1)) and rd.same_defs(_t, d.node, o_.id):
+                                    pos_ = True
+                        if not pos_:
+                            ok = False
+                            det = (f'`{short(v)}` bounds the size only when `{short(o_)}` is positive: a negative size (read(-1), the usual spelling of "everything") is smaller than '
+                                   f'the remainder, passes through min() and makes the source read to its very end - the bytes of every later part and the closing delimiter')
+            if ok:
+                det = ''
+        R.ob(rid, rd_, c, ok, detail=det, why='a window that reads past its end returns bytes of the next part (delimiter, headers, other fields)')
+        # seek to own position immediately before
+        seek_calls = [x for x in walk_shallow(rd_.node) if isinstance(x, ast.Call) and dotted(x.func) == 'self._src.seek' and x.args
+                      and lin_at(rd_, x.args[0], g.node_of_stmt(x)[0]) == A]
+        seeks = [g.node_of_stmt(x)[0] for x in seek_calls]
+        ok = bool(seeks) and g.must_pass(g.entry, cn, seeks)
+        R.ob(rid, rd_, c, ok, text='self._src.seek(<own position>) before the read', detail='' if ok else
+             'the shared source is read at whatever position another window left it', key_extra='seek')
+        # position advanced by the same size; the seek uses the position before the advance
+        advs = [n for n in g.nodes if n.kind == 'stmt' and isinstance(n.ast, ast.AugAssign) and dotted(n.ast.target) == 'self._pos'
+                and isinstance(n.ast.op, ast.Add) and isinstance(a, ast.Name) and src(n.ast.value) == a.id]
+        # (the position the seek uses may have been computed into a local first: that, too, before the advance)
+        pos_reads = list(seeks)
+        for x in seek_calls:
+            for (_e, dn) in rd.closure(x.args[0], g.node_of_stmt(x)[0]):
+                if dn is not None and dn in g.nodes:
+                    pos_reads.append(dn)
+        ok = len(advs) == 1 and len(advs_all) == 1 and seeks and g.must_pass(g.entry, advs[0], seeks) and not any(g.can_reach(advs[0], s) for s in pos_reads)
+        R.ob(rid, rd_, advs[0].ast if advs else c, ok, text='self._pos += <size read> after the seek', detail='' if ok else
+             'the window position is not advanced by exactly the size read (or is advanced before the seek)', key_extra='advance')
+    # non-positive remainder -> b''
+    zt = [n for n in g.nodes if n.kind == 'test' and compare_parts(n.ast) and src(compare_parts(n.ast)[0]) == rem
+          and compare_parts(n.ast)[1] in (ast.LtE, ast.Lt) and isinstance(compare_parts(n.ast)[2], ast.Constant)]
+    ok = False
+    for n in zt:
+        cpx = compare_parts(n.ast)
+        if (cpx[1] is ast.LtE and cpx[2].value == 0) or (cpx[1] is ast.Lt and cpx[2].value == 1):
+            for s in T.succ_by_label(n, 'true'):
+                ok = ok or (s.kind == 'stmt' and isinstance(s.ast, ast.Return) and is_const(s.ast.value, b''))
+            ok = ok and all(g.edge_dominates(n, 'false', g.node_of_stmt(c)[0]) for c in src_reads)
+    R.ob(rid, rd_, zt[0].ast if zt else rd_.node, ok, text=f'{rem} <= 0 -> return b"" before any read', detail='' if ok else
+         'an exhausted window can still read from the source')
+    sk = P.func(f'{MP}:BytesIOProxy.seek')
+    sg, srd = sk.cfg, sk.rd
+    pos_stores = [n for n in sg.nodes if n.kind == 'stmt' and isinstance(n.ast, ast.Assign) and any(dotted(t) == 'self._pos' for t in n.ast.targets)]
+
+    def nonneg(e, at):
+        # e >= 0 whenever control is at `at`
+        if isinstance(e, ast.Constant) and isinstance(e.value, int):
+            return e.value >= 0
+        if isinstance(e, ast.Call) and dotted(e.func) == 'max' and any(isinstance(a_, ast.Constant) and isinstance(a_.value, int) and a_.value >= 0 for a_ in e.args):
+            return True
+        if isinstance(e, ast.Name):
+            tests = []
+            for t in sg.nodes:
+                cp_ = compare_parts(t.ast) if t.kind == 'test' and t.ast is not None else None
+                if cp_ and isinstance(cp_[0], ast.Name) and cp_[0].id == e.id and cp_[1] is ast.Lt and is_const(cp_[2], 0):
+                    fix = [m for m in T.succ_by_label(t, 'true') if m.kind == 'stmt' and isinstance(m.ast, ast.Assign) and any(
+                        isinstance(x, ast.Name) and x.id == e.id for x in m.ast.targets) and nonneg(m.ast.value, m)]
+                    if fix:
+                        tests.append(t)
+            defs = srd.at(at, e.id)
+            return bool(defs) and all((d.value is not None and d.kind == 'assign' and not isinstance(d.value, ast.Name) and nonneg(d.value, d.node))
+                                      or (tests and sg.must_pass(d.node, at, tests)) for d in defs)
+        return False
+
+    def clamped(v, at):
+        # v in [self._st, self._end]
+        if isinstance(v, ast.Name):
+            defs = srd.at(at, v.id)
+            return bool(defs) and all(d.value is not None and clamped(d.value, d.node) for d in defs)
+        if isinstance(v, ast.Call) and dotted(v.func) == 'min' and len(v.args) == 2:
+            a_, b_ = v.args
+            if src(b_) == 'self._end':
+                a_, b_ = b_, a_
+            if src(a_) == 'self._end':
+                # lower bound of the other argument
+                if isinstance(b_, ast.BinOp) and isinstance(b_.op, ast.Add):
+                    l_, r_ = b_.left, b_.right
+                    if src(r_) == 'self._st':
+                        l_, r_ = r_, l_
+                    return src(l_) == 'self._st' and nonneg(r_, at)
+                if isinstance(b_, ast.Call) and dotted(b_.func) == 'max' and any(src(x) == 'self._st' for x in b_.args):
+                    return True
+            return False
+        if isinstance(v, ast.Call) and dotted(v.func) == 'max' and len(v.args) == 2 and any(src(x) == 'self._st' for x in v.args):
+            o_ = [x for x in v.args if src(x) != 'self._st'][0]
+            return isinstance(o_, ast.Call) and dotted(o_.func) == 'min' and any(src(x) == 'self._end' for x in o_.args)
+        return False
+    def clamped_rel(v, at):
+        # v in [0, self._end - self._st]: an absolute position of the window minus the start of the part, or min(<non-negative>, length of the part)
+        if isinstance(v, ast.Name):
+            defs = srd.at(at, v.id)
+            return bool(defs) and all(d.value is not None and clamped_rel(d.value, d.node) for d in defs)
+        if isinstance(v, ast.BinOp) and isinstance(v.op, ast.Sub) and src(v.right) == 'self._st':
+            return clamped(v.left, at)
+        if isinstance(v, ast.Call) and dotted(v.func) == 'min' and len(v.args) == 2:
+            for a_, b_ in (v.args, v.args[::-1]):
+                if _lin(T.expand(sk, b_, at, keep=tuple(sk.params))) == Lin.sym('self._end') - Lin.sym('self._st') and nonneg(a_, at):
+                    return True
+        return False
+    R.require(pos_stores, 'BytesIOProxy.seek: no store of self._pos')
+    for n in pos_stores:
+        ok = clamped(n.ast.value, n) if rep == 'abs' else clamped_rel(n.ast.value, n)
+        R.ob(rid, sk, n.ast, ok, text=f'`{short(n.ast)}`: the new position lies in [start of the part, end of the part]', detail='' if ok else
+             f'`{short(n.ast)}` can move the window position outside [self._st, self._end] (e.g. a seek before the start of the upload is clamped to the start of the whole '
+             f'body, or not at all): read() then returns the preceding delimiter, headers and other parts\' bytes',
+             why='no byte of one part appears in another', key_extra='seek-clamp')
+    # the window is built from the data section of the same field
+    fr = P.func(f'{MP}:FieldStorage.read')
+    wins = [c for c in walk_shallow(fr.node) if isinstance(c, ast.Call) and dotted(c.func) == 'BytesIOProxy']
+    ok = bool(wins) and len(wins[0].args) == 2 and isinstance(wins[0].args[1], ast.Starred) and src(wins[0].args[1].value) == fr.params[3] \
+        and src(wins[0].args[0]) == fr.params[1]
+    R.ob(rid, fr, wins[0] if wins else fr.node, ok, text='file = BytesIOProxy(src, *data_section)', detail='' if ok else
+         'the upload window is not the data section of its own part')
+
+
+
+def check_boundary_refusals(P, R):
+    """the scanner's constructor refuses no legal boundary: a length limit is stated for the boundary itself (1..70 characters, RFC 2046), not for the delimiter
+    built from it"""
+    from .c19 import Lin
+    f = P.func(f'{MP}:BodyMarkuper.__init__')
+    g, rd = f.cfg, f.rd
+    bp = f.params[1]
+
+    def length_of(name, at, depth=0):
+        # len(name) at `at` as  len(param) + k
+        ds = rd.at(at, name)
+        if len(ds) != 1 or depth > 3:
+            return None
+        d = ds[0]
+        if d.kind == 'param':
+            return 0 if name == bp else None
+        v = d.value
+        if d.kind == 'assign' and isinstance(v, ast.BinOp) and isinstance(v.op, ast.Add):
+            tot = 0
+            for side in (v.left, v.right):
+                if isinstance(side, ast.Name) and rd.is_local(side.id):
+                    k = length_of(side.id, d.node, depth + 1)
+                    if k is None:
+                        return None
+                    tot += k
+                else:
+                    try:
+                        cv = T.ceval(f, side)
+                    except T.CannotEval:
+                        return None
+                    if not isinstance(cv, (bytes, str)):
+                        return None
+                    tot += len(cv)
+            return tot
+        return None
+    for tn in g.nodes:
+        if tn.kind != 'test':
+            continue
+        cp = compare_parts(tn.ast)
+        if not (cp and isinstance(cp[0], ast.Call) and dotted(cp[0].func) == 'len' and cp[0].args and isinstance(cp[0].args[0], ast.Name) and cp[1] in (ast.Gt, ast.GtE)):
+            continue
+        reach = g.reachable_from(T.succ_by_label(tn, 'true'))
+        if g.exit in reach or not any(m.kind == 'stmt' and isinstance(m.ast, ast.Raise) for m in reach):
+            continue
+        try:
+            lim = T.ceval(f, cp[2])
+        except T.CannotEval:
+            continue
+        k = length_of(cp[0].args[0].id, tn)
+        if not isinstance(lim, int) or k is None:
+            R.undecided('C07.d', f, tn.ast, 'boundary length limit', f'`{short(tn.ast)}` cannot be related to the length of the boundary parameter')
+            continue
+        # refused when len(boundary) + k > lim  (or >=)
+        first_refused = lim - k + (1 if cp[1] is ast.Gt else 0)
+        ok = first_refused > 70
+        R.ob('C07.d', f, tn.ast, ok, text=f'`{short(tn.ast)}`: boundaries are refused from {first_refused} characters on', detail='' if ok else
+             f'`{short(tn.ast)}` measures `{cp[0].args[0].id}`, which is the boundary plus {k} more byte(s): boundaries of {first_refused}..70 characters - legal by RFC 2046 - are '
+             f'refused and the whole form is rejected',
+             why='every legal boundary string is accepted', key_extra='boundary-length')
 
 
 def check_refuted_window(P, R):
